@@ -90,8 +90,6 @@ func VerifR3SnapshotVsReplay() {
 	s.sync(0, a)
 	s.sync(1, b)
 	s.sync(0, a)
-	vSkew(a, "skewA")
-	vSkew(b, "skewB")
 	// history before the snapshot. mode 0: A edits twice, nothing after the
 	// snapshot; mode 1: A edits once, the snapshot-fed replica edits after;
 	// mode 2 (thorough, reduced index alphabet): A twice, B once
@@ -99,11 +97,27 @@ func VerifR3SnapshotVsReplay() {
 	// mode 3: A and B edit once concurrently, so that the log holds a
 	// change made without knowledge of the change before it: a snapshot cut
 	// between them is followed by the replay of a concurrent change.
-	mode := zzvsym.IntRange("mode", 0, 3)
-	zzvsym.Assume(mode != 2 || zzvsym.Tier() > 0)
-	vSmallAlphabet = mode == 2
-	vEdit(a, "a0", typ, 10)
-	if mode == 3 {
+	// mode 4 (arrays): A edits twice (e.g. move, then delete the moved
+	// element), B once concurrently: the snapshot cut after A's edits holds
+	// dead slots that B's change is anchored on.
+	mode := zzvsym.IntRange("mode", 0, 4)
+	zzvsym.Assume((mode != 2 && mode != 0) || zzvsym.Tier() > 0) // quick: modes 1, 3, 4
+	zzvsym.Assume(mode != 4 || typ == vTArray)
+	vSmallAlphabet = mode == 2 || mode == 4 || zzvsym.Tier() == 0 // quick: reduced index alphabets
+	if mode != 1 || zzvsym.Tier() > 0 {
+		// concurrent edits: their tickets are compared, so the clocks are symbolic
+		vSkew(a, "skewA")
+		vSkew(b, "skewB")
+	}
+	a0 := vEdit(a, "a0", typ, 10)
+	if mode == 4 {
+		// the histories that leave dead slots behind: a move, then a delete /
+		// another move / a set-by-index
+		zzvsym.Assume(a0.k == 2 || a0.k >= 5)
+		a1 := vEdit(a, "a1", typ, 11)
+		zzvsym.Assume(a1.k >= 1 && a1.k <= 3)
+		vEdit(b, "b0", typ, 20)
+	} else if mode == 3 {
 		vEdit(b, "b0", typ, 20)
 	} else if mode != 1 {
 		if zzvsym.IntRange("syncA0", 0, 1) == 1 {
